@@ -239,7 +239,9 @@ def run_case(case):
             if want != got:
                 V("script-equals-real-ops", "operations differ: only in script %s ; only in real run %s" % (
                     [o for o in want if o not in got][:4], [o for o in got if o not in want][:4]),
-                  paths=[x for o in (set(want) ^ set(got)) for x in o[1:] if x and x.startswith(rd.wb() + b"/")])
+                  # (temporaries are left out: the other operand of the same operation names the file, and the
+                  # owner of a shortened temporary name can be ambiguous among siblings with a long common prefix)
+                  paths=[x for o in (set(want) ^ set(got)) for x in o[1:] if x and x.startswith(rd.wb() + b"/") and b"<tmp>" not in x])
             # (3) summaries
             s1, s2 = ops.summary(dry), ops.summary(real)
             if (s1 is not None or s2 is not None) and s1 != s2:
